@@ -1518,3 +1518,71 @@ impl Family for F12 {
         Case { u, p, tag: "F12".into() }
     }
 }
+
+/// F13 "exempt soft solvable meets other rules": package p (versions 1, 2) may be locked to one version
+/// and may have one version excluded; a version of p is named directly as a soft requirement (and is
+/// thereby exempt from p's lock / exclusion list) before or after the soft requirement t=1, which
+/// requires or constrains p in one of {nothing, constrains {1}, constrains {2}, requires {1}, requires
+/// {2}, requires *}. Root requires base, or base and p*.
+pub struct F13;
+
+impl Family for F13 {
+    fn name(&self) -> String {
+        "F13 directly named soft solvable of a locked / excluded package vs another soft requirement".into()
+    }
+    fn len(&self) -> u64 {
+        3 * 3 * 6 * 2 * 2 * 2
+    }
+    fn get(&self, mut idx: u64) -> Case {
+        let mut take = |n: u64| {
+            let r = idx % n;
+            idx /= n;
+            r
+        };
+        let lock = take(3);
+        let excl = take(3);
+        let rel = take(6);
+        let soft_p = take(2);
+        let p_first = take(2) == 1;
+        let root_p = take(2) == 1;
+        let mut u = Universe::default();
+        let base = u.add_name("base");
+        let p = u.add_name("p");
+        let t = u.add_name("t");
+        let base1 = u.add_solv(base, 1);
+        let p1 = u.add_solv(p, 1);
+        let p2 = u.add_solv(p, 2);
+        let t1 = u.add_solv(t, 1);
+        u.rerank_by_version(p);
+        let base_all = u.add_vset(base, &[base1]);
+        let p_1 = u.add_vset(p, &[p1]);
+        let p_2 = u.add_vset(p, &[p2]);
+        let p_all = u.add_vset(p, &[p1, p2]);
+        match lock {
+            1 => u.names[p as usize].locked = Some(p1),
+            2 => u.names[p as usize].locked = Some(p2),
+            _ => {}
+        }
+        if excl > 0 {
+            let r = u.add_string("excluded");
+            let s = if excl == 1 { p1 } else { p2 };
+            u.names[p as usize].excluded.push((s, r));
+        }
+        match rel {
+            1 => u.solvs[t1 as usize].deps.push_con(p_1),
+            2 => u.solvs[t1 as usize].deps.push_con(p_2),
+            3 => u.solvs[t1 as usize].deps.push_req(Req::Single(p_1)),
+            4 => u.solvs[t1 as usize].deps.push_req(Req::Single(p_2)),
+            5 => u.solvs[t1 as usize].deps.push_req(Req::Single(p_all)),
+            _ => {}
+        }
+        let sp = if soft_p == 0 { p1 } else { p2 };
+        let mut prob = Problem::default();
+        prob.reqs.push(Req::Single(base_all));
+        if root_p {
+            prob.reqs.push(Req::Single(p_all));
+        }
+        prob.soft = if p_first { vec![sp, t1] } else { vec![t1, sp] };
+        Case { u, p: prob, tag: "F13".into() }
+    }
+}
